@@ -19,27 +19,37 @@ LOWER_HEX = ('new_lower_hex', '0123456789abcdef', '0x')
 
 
 def reader_rows(ctx):
-    """group -> (radix, NumberType, int type, site) from number_regex_parser"""
+    """group -> (radix, NumberType, int type, site) of the based-literal reader. Extracted from the *value* of the Number
+    token (helpers inlined, `?` / combinators lowered), so the rows survive extract-method and match -> combinator rewrites:
+    every alternative of the payload that contains `from_str_radix(<capture group>, <radix>)` is one row; the NumberType
+    alternative selected by the presence of the same capture group completes it."""
+    from ..common import literal_values
     b = ctx.facts.one(r'regex_tokinizer::number::number_regex_parser$')
     ctx.fn(b)
+    toks = [st for i in b.normal_blocks for st in b.blocks[i]['stmts'] if st['k'] == 'assign' and st['rv'] == 'aggr' and st['adt'] == 'types::TokenType::Number']
+    if not toks:
+        raise AnchorLost('number_regex_parser constructs no TokenType::Number')
     rows = {}
-    for bid, t in b.calls(r'from_str_radix$'):
-        m = re.search(r'<impl ([iu]\d+|[iu]size)>::from_str_radix$', t['callee']['path'])
-        ity = m.group(1) if m else '?'
-        src = render(b.expr(t['args'][0]))
-        g = re.search(r'Captures::name\([^"]*"(\w+)"\) as Some\.0$', src)
-        radix = strip(b.expr(t['args'][1]))
-        if not g or radix[0] != 'const':
-            raise AnchorLost('number_regex_parser: from_str_radix call with non-constant group / radix at %s' % t['loc'])
-        rows[g.group(1)] = [radix[2], None, ity, t['loc'], bid]
-    # NumberType assigned next to each from_str_radix (same arm)
-    for i in b.normal_blocks:
-        for s in b.blocks[i]['stmts']:
-            if s['k'] == 'assign' and s['rv'] == 'aggr' and s['adt'].startswith('types::NumberType::'):
-                conds = b.cond_text(i)
-                for g, row in rows.items():
-                    if any(re.search(r'Captures::name\(.*"%s"\)\)=\[1\]' % g, c) for c in conds):
-                        row[1] = s['adt'].rsplit('::', 1)[1]
+    for st in toks:
+        for core, factor, conds in literal_values(ctx, b, b.expr(st['ops'][0])):
+            for x in walk(core):
+                if x[0] == 'call' and x[1].endswith('::from_str_radix') and len(x[2]) == 2:
+                    m = re.search(r'<impl ([iu]\d+|[iu]size)>::from_str_radix$', x[1])
+                    ity = m.group(1) if m else '?'
+                    g = re.search(r'Captures::name\([^"]*"(\w+)"\) as Some\.0$', render(x[2][0]))
+                    radix = strip(x[2][1])
+                    if not g or radix[0] != 'const':
+                        raise AnchorLost('number_regex_parser: from_str_radix with a non-constant group / radix (%s, %s)' % (render(x[2][0])[:60], render(radix)[:20]))
+                    loc = x[3]['loc'] if isinstance(x[3], dict) else st['loc']
+                    rows[g.group(1)] = [radix[2], None, ity, loc, None]
+        for a, conds in alternatives(b, b.expr(st['ops'][1])):
+            a2 = strip(a)
+            if a2[0] != 'aggr' or not a2[1].startswith('types::NumberType::'):
+                continue
+            cs = [cond_str(d, v) for d, v in conds]
+            for g, row in rows.items():
+                if any(re.search(r'Captures::name\(.*"%s"\)\)=\[1\]' % g, c) for c in cs):
+                    row[1] = a2[1].rsplit('::', 1)[1]
     return b, rows
 
 
